@@ -354,5 +354,808 @@ theorem dictLoop_InvL (env : Env) (par : Node) (L : List Key) :
             refine ih _ _ h ⟨?_, hf.2⟩
             simp only [keys_setKey]; exact hf.1
 
+/-! ## `flush` exactly, and the right-only half of `OrderOK` -/
+
+theorem foldl_insert_eq (buf : List (Key × Node)) : ∀ (es : List (Key × Node)) (pos : Nat),
+    (buf.foldl (fun (acc : List (Key × Node) × Nat) kv => (insertAt acc.2 kv acc.1, acc.2 + 1)) (es, pos)).1
+      = es.take pos ++ buf ++ es.drop pos := by
+  induction buf with
+  | nil => intro es pos; simp
+  | cons kv rest ih =>
+    intro es pos
+    simp only [List.foldl_cons]
+    rw [ih]
+    simp only [insertAt]
+    by_cases hp : pos ≤ es.length
+    · have h1 : (es.take pos).length = pos := by simp [List.length_take]; omega
+      have : (List.take pos es ++ kv :: List.drop pos es) = (List.take pos es ++ [kv]) ++ List.drop pos es := by simp
+      rw [this]
+      have h2 : (es.take pos ++ [kv]).length = pos + 1 := by simp [h1]
+      rw [List.take_append_of_le_length (by omega), List.drop_append_of_le_length (by omega)]
+      rw [List.take_of_length_le (by omega), List.drop_of_length_le (by omega)]
+      simp
+    · have h1 : es.take pos = es := List.take_of_length_le (by omega)
+      have h2 : es.drop pos = [] := List.drop_of_length_le (by omega)
+      rw [h1, h2]
+      rw [List.take_of_length_le (by simp; omega), List.drop_of_length_le (by simp; omega)]
+      simp
+
+theorem flush_entries (st : DState) :
+    (flush st).entries = st.entries.take st.pos ++ st.buffer ++ st.entries.drop st.pos := by
+  unfold flush; exact foldl_insert_eq _ _ _
+
+
+
+theorem keys_append (a b : List (Key × Node)) : keys (a ++ b) = keys a ++ keys b := by
+  simp [keys]
+
+theorem keys_flush (st : DState) :
+    keys (flush st).entries = (keys st.entries).take st.pos ++ keys st.buffer ++ (keys st.entries).drop st.pos := by
+  rw [flush_entries]; simp [keys, List.map_take, List.map_drop]
+
+theorem mem_keys_flush (st : DState) (k : Key) :
+    k ∈ keys (flush st).entries ↔ k ∈ keys st.entries ∨ k ∈ keys st.buffer := by
+  rw [keys_flush]
+  simp only [List.mem_append]
+  constructor
+  · rintro ((h | h) | h)
+    · exact .inl (List.mem_of_mem_take h)
+    · exact .inr h
+    · exact .inl (List.mem_of_mem_drop h)
+  · rintro (h | h)
+    · rw [← List.take_append_drop st.pos (keys st.entries)] at h
+      rcases List.mem_append.mp h with h | h
+      · exact .inl (.inl h)
+      · exact .inr h
+    · exact .inl (.inr h)
+
+theorem mem_of_mem_drop_append {α : Type} (X C : List α) (n : Nat) (a : α) (hn : X.length ≤ n)
+    (h : a ∈ (X ++ C).drop n) : a ∈ C := by
+  rw [List.drop_append] at h
+  rw [List.drop_of_length_le hn] at h
+  exact List.mem_of_mem_drop h
+
+/-- Invariant of the `_merge_dicts` loop for the right-only keys: the left-hand keys `L` are all
+still present, buffered keys are not left-hand keys, and **no right-only key sits at or after
+`buffer_pos`**. -/
+structure InvR (L : List Key) (st : DState) : Prop where
+  left : InvL L st
+  tail : ∀ k ∈ (keys st.entries).drop st.pos, L.contains k = true
+
+theorem InvR_flush (L : List Key) (st : DState) (h : InvR L st) : InvR L (flush st) := by
+  refine ⟨InvL_flush L st h.left, ?_⟩
+  intro k hk
+  rw [keys_flush] at hk
+  have hp : (flush st).pos = st.pos + st.buffer.length := rfl
+  rw [hp] at hk
+  apply h.tail
+  refine mem_of_mem_drop_append _ _ _ k ?_ hk
+  simp [keys, List.length_take]; omega
+
+theorem filter_flush_R (L : List Key) (st : DState) (h : InvR L st) :
+    (keys (flush st).entries).filter (fun k => !L.contains k)
+      = (keys st.entries).filter (fun k => !L.contains k) ++ keys st.buffer := by
+  have hd : ((keys st.entries).drop st.pos).filter (fun k => !L.contains k) = [] := by
+    apply List.filter_eq_nil_iff.mpr
+    intro k hk; simpa using h.tail k hk
+  have hb : (keys st.buffer).filter (fun k => !L.contains k) = keys st.buffer := by
+    apply List.filter_eq_self.mpr
+    intro k hk
+    obtain ⟨kv, hkv, rfl⟩ := List.mem_map.mp hk
+    simpa using h.left.2 kv hkv
+  rw [keys_flush]
+  conv => rhs; rw [← List.take_append_drop st.pos (keys st.entries)]
+  simp only [List.filter_append, hd, hb, List.append_nil]
+
+theorem dictLoop_InvR (env : Env) (par : Node) (L : List Key) :
+    ∀ (res : List (Key × Node)) (st st' : DState), dictLoop env par res st = .ok st' → InvR L st →
+      (keys res).Nodup →
+      (∀ k ∈ keys res, L.contains k = false → k ∉ keys st.entries ∧ k ∉ keys st.buffer) →
+      (keys (st'.entries ++ st'.buffer)).filter (fun k => !L.contains k)
+        = (keys st.entries).filter (fun k => !L.contains k) ++ keys st.buffer
+            ++ (keys res).filter (fun k => !L.contains k) := by
+  intro res
+  induction res with
+  | nil =>
+    intro st st' h hi _ _
+    simp only [dictLoop] at h; cases h
+    have hb : (keys st.buffer).filter (fun k => !L.contains k) = keys st.buffer := by
+      apply List.filter_eq_self.mpr
+      intro k hk
+      obtain ⟨kv, hkv, rfl⟩ := List.mem_map.mp hk
+      simpa using hi.left.2 kv hkv
+    rw [keys_append, List.filter_append, hb]; simp [keys]
+  | cons kv rest ih =>
+    obtain ⟨k, val⟩ := kv
+    intro st st' h hi hnd hfresh
+    have hnd' : (keys rest).Nodup := by
+      simp only [keys, List.map_cons, List.nodup_cons] at hnd ⊢; exact hnd.2
+    have hk_rest : k ∉ keys rest := by
+      simp only [keys, List.map_cons, List.nodup_cons] at hnd ⊢; exact hnd.1
+    simp only [dictLoop] at h
+    cases hl : lookupKey k st.entries with
+    | none =>
+      rw [hl] at h
+      have hkE : k ∉ keys st.entries := (lookupKey_none_iff k st.entries).mp hl
+      have hkL : L.contains k = false := by
+        cases hc : L.contains k with
+        | false => rfl
+        | true =>
+          exfalso
+          have hk : k ∈ L := by simpa using hc
+          rw [← hi.left.1] at hk
+          exact hkE (List.mem_filter.mp hk).1
+      have hi2 : InvR L { st with buffer := st.buffer ++ [(k, val)], pos := st.pos + 1 } := by
+        refine ⟨⟨hi.left.1, ?_⟩, ?_⟩
+        · intro kv hkv
+          simp only [List.mem_append, List.mem_singleton] at hkv
+          rcases hkv with hkv | hkv
+          · exact hi.left.2 kv hkv
+          · subst hkv; exact hkL
+        · intro k' hk'
+          apply hi.tail
+          simp only at hk'
+          rw [← List.drop_drop] at hk'
+          exact List.mem_of_mem_drop hk'
+      have := ih _ _ h hi2 hnd' (by
+        intro k' hk' hL
+        have := hfresh k' (by simp [keys] at hk' ⊢; exact .inr hk') hL
+        refine ⟨this.1, ?_⟩
+        simp only [keys_append, List.mem_append, not_or]
+        refine ⟨this.2, ?_⟩
+        simp [keys]; rintro rfl; exact hk_rest hk')
+      rw [this]
+      have hkL' : k ∉ L := by simpa using hkL
+      simp [keys, hkL']
+    | some lv =>
+      rw [hl] at h
+      simp only at h
+      have hkE : k ∈ keys st.entries := Classical.byContradiction (fun hc => by
+        rw [(lookupKey_none_iff k st.entries).mpr hc] at hl; cases hl)
+      have hkL : L.contains k = true := by
+        cases hc : L.contains k with
+        | true => rfl
+        | false => exact absurd hkE (hfresh k (by simp [keys]) hc).1
+      have hf := InvR_flush L st hi
+      have hff := filter_flush_R L st hi
+      have hfresh1 : ∀ E, keys E = keys (flush st).entries → ∀ p,
+          ∀ k' ∈ keys rest, L.contains k' = false →
+            k' ∉ keys ({ entries := E, buffer := [], pos := p } : DState).entries ∧
+            k' ∉ keys ({ entries := E, buffer := [], pos := p } : DState).buffer := by
+        intro E hE p k' hk' hL
+        have := hfresh k' (by simp [keys] at hk' ⊢; exact .inr hk') hL
+        refine ⟨?_, by simp [keys]⟩
+        simp only [hE, mem_keys_flush]
+        exact fun h => h.elim this.1 this.2
+      have goal_of : ∀ E p, keys E = keys (flush st).entries →
+          InvR L ⟨E, [], p⟩ →
+          dictLoop env par rest ⟨E, [], p⟩ = .ok st' →
+          (keys (st'.entries ++ st'.buffer)).filter (fun k => !L.contains k)
+            = (keys st.entries).filter (fun k => !L.contains k) ++ keys st.buffer
+              ++ (keys ((k, val) :: rest)).filter (fun k => !L.contains k) := by
+        intro E p hE hI hd
+        rw [ih _ _ hd hI hnd' (hfresh1 E hE p)]
+        simp only [hE, hff]
+        have hkL' : k ∈ L := by simpa using hkL
+        simp [keys, hkL']
+      cases hs : shortCircuit env ⟨val, some par, some (.key k)⟩ with
+      | error e => rw [hs] at h; cases h
+      | ok sc =>
+        rw [hs] at h
+        cases sc with
+        | keepLeft => exact goal_of _ _ rfl hf h
+        | takeRight =>
+          refine goal_of _ _ (keys_setKey _ _ _) ?_ h
+          refine ⟨⟨?_, hf.left.2⟩, ?_⟩
+          · simp only [keys_setKey]; exact hf.left.1
+          · simp only [keys_setKey]; exact hf.tail
+        | goDeep =>
+          simp only at h
+          cases hm : mergeVal env lv ⟨val, some par, some (.key k)⟩ val with
+          | error e => rw [hm] at h; cases h
+          | ok m =>
+            rw [hm] at h
+            refine goal_of _ _ (keys_setKey _ _ _) ?_ h
+            refine ⟨⟨?_, hf.left.2⟩, ?_⟩
+            · simp only [keys_setKey]; exact hf.left.1
+            · simp only [keys_setKey]
+              intro k' hk'
+              apply hf.tail
+              rw [← List.drop_drop] at hk'
+              exact List.mem_of_mem_drop hk'
+
+
+/-! ## Per-key content of a deep hash merge -/
+
+theorem lookupKey_append (k : Key) (xs ys : List (Key × Node)) :
+    lookupKey k (xs ++ ys) = (lookupKey k xs).or (lookupKey k ys) := by
+  induction xs with
+  | nil => simp [lookupKey]
+  | cons kv rest ih =>
+    obtain ⟨k', v⟩ := kv
+    simp only [List.cons_append, lookupKey]
+    split
+    · simp
+    · exact ih
+
+theorem lookupKey_setKey (k k' : Key) (v : Node) (es : List (Key × Node)) :
+    lookupKey k' (setKey k v es) = if k' = k then (lookupKey k es).map (fun _ => v) else lookupKey k' es := by
+  induction es with
+  | nil => simp [setKey, lookupKey]
+  | cons kv rest ih =>
+    obtain ⟨k0, v0⟩ := kv
+    simp only [setKey]
+    by_cases h0 : k0 = k
+    · subst h0
+      simp only [↓reduceIte, lookupKey]
+      by_cases h1 : k0 = k'
+      · subst h1; simp
+      · have h1' : ¬ k' = k0 := fun h => h1 h.symm
+        simp [h1, h1']
+    · simp only [h0, ↓reduceIte, lookupKey, ih]
+      by_cases h1 : k0 = k'
+      · subst h1; simp [h0]
+      · simp [h1]
+
+/-- `lhs[k]` as the loop sees the mapping it is building: the entries, then what is buffered. -/
+def look (k : Key) (st : DState) : Option Node := lookupKey k (st.entries ++ st.buffer)
+
+theorem lookupKey_isSome_iff (k : Key) (es : List (Key × Node)) : (lookupKey k es).isSome ↔ k ∈ keys es := by
+  cases h : lookupKey k es with
+  | none => simp [(lookupKey_none_iff k es).mp h]
+  | some v =>
+    simp only [Option.isSome_some, true_iff]
+    exact Classical.byContradiction (fun hc => by rw [(lookupKey_none_iff k es).mpr hc] at h; cases h)
+
+/-- Buffered keys are not keys of the entries. -/
+def Disj (st : DState) : Prop := ∀ k ∈ keys st.buffer, k ∉ keys st.entries
+
+theorem look_flush (k : Key) (st : DState) (hd : Disj st) : look k (flush st) = look k st := by
+  have hb : (flush st).buffer = [] := rfl
+  simp only [look, hb, List.append_nil, flush_entries, lookupKey_append]
+  cases hB : lookupKey k st.buffer with
+  | none =>
+    simp only [Option.or_none]
+    rw [← lookupKey_append, List.take_append_drop]
+  | some v =>
+    have hkB : k ∈ keys st.buffer := (lookupKey_isSome_iff k _).mp (by simp [hB])
+    have hkE := hd k hkB
+    have h1 : lookupKey k (st.entries.take st.pos) = none := by
+      apply (lookupKey_none_iff _ _).mpr
+      intro h; apply hkE
+      simp only [keys, List.map_take] at h ⊢; exact List.mem_of_mem_take h
+    have h2 : lookupKey k st.entries = none := (lookupKey_none_iff _ _).mpr hkE
+    simp [h1, h2]
+
+theorem Disj_nil (E : List (Key × Node)) (p : Nat) : Disj ⟨E, [], p⟩ := by
+  intro k hk; simp [keys] at hk
+
+theorem dictLoop_look_notin (env : Env) (par : Node) (k' : Key) :
+    ∀ (res : List (Key × Node)) (st st' : DState), dictLoop env par res st = .ok st' → Disj st →
+      k' ∉ keys res → look k' st' = look k' st := by
+  intro res
+  induction res with
+  | nil => intro st st' h _ _; simp only [dictLoop] at h; cases h; rfl
+  | cons kv rest ih =>
+    obtain ⟨k, val⟩ := kv
+    intro st st' h hd hk'
+    have hne : k ≠ k' := by intro e; apply hk'; simp [keys, e]
+    have hk'r : k' ∉ keys rest := by intro e; apply hk'; simp only [keys, List.map_cons, List.mem_cons] at e ⊢; exact .inr e
+    simp only [dictLoop] at h
+    cases hl : lookupKey k st.entries with
+    | none =>
+      rw [hl] at h
+      have hkE : k ∉ keys st.entries := (lookupKey_none_iff k st.entries).mp hl
+      rw [ih _ _ h ?_ hk'r]
+      · simp only [look, ← List.append_assoc]
+        rw [lookupKey_append]
+        simp [lookupKey, hne]
+      · intro k2 hk2
+        simp only [keys_append, List.mem_append] at hk2
+        rcases hk2 with hk2 | hk2
+        · exact hd k2 hk2
+        · simp [keys] at hk2; subst hk2; exact hkE
+    | some lv =>
+      rw [hl] at h
+      simp only at h
+      have hfl := look_flush k' st hd
+      have key : ∀ v p, look k' ⟨setKey k v (flush st).entries, [], p⟩ = look k' st := by
+        intro v p
+        rw [← hfl]
+        have hb : (flush st).buffer = [] := rfl
+        have hne' : ¬ k' = k := fun e => hne e.symm
+        simp only [look, hb, List.append_nil, lookupKey_setKey, hne', ↓reduceIte]
+      cases hs : shortCircuit env ⟨val, some par, some (.key k)⟩ with
+      | error e => rw [hs] at h; cases h
+      | ok sc =>
+        rw [hs] at h
+        cases sc with
+        | keepLeft => rw [ih _ _ h (Disj_nil _ _) hk'r]; exact hfl
+        | takeRight => rw [ih _ _ h (Disj_nil _ _) hk'r]; exact key _ _
+        | goDeep =>
+          simp only at h
+          cases hm : mergeVal env lv ⟨val, some par, some (.key k)⟩ val with
+          | error e => rw [hm] at h; cases h
+          | ok m => rw [hm] at h; rw [ih _ _ h (Disj_nil _ _) hk'r]; exact key _ _
+
+
+theorem look_entries_of_notin_buffer (k : Key) (st : DState) (h : k ∉ keys st.buffer) :
+    look k st = lookupKey k st.entries := by
+  simp only [look, lookupKey_append, (lookupKey_none_iff k st.buffer).mpr h, Option.or_none]
+
+theorem lookupKey_cons_ne {k k' : Key} (v : Node) (rest : List (Key × Node)) (h : k ≠ k') :
+    lookupKey k' ((k, v) :: rest) = lookupKey k' rest := by
+  simp [lookupKey, h]
+
+theorem lookupKey_mem_keys {k : Key} {es : List (Key × Node)} {v : Node} (h : lookupKey k es = some v) :
+    k ∈ keys es := (lookupKey_isSome_iff k es).mp (by simp [h])
+
+/-- The per-key content of the `_merge_dicts` loop. -/
+theorem dictLoop_look (env : Env) (par : Node) :
+    ∀ (res : List (Key × Node)) (st st' : DState), dictLoop env par res st = .ok st' → Disj st →
+      (keys res).Nodup → (∀ k ∈ keys res, k ∉ keys st.buffer) →
+      ∀ k' rv, lookupKey k' res = some rv →
+        Merged env par k' (lookupKey k' st.entries) rv (look k' st') := by
+  intro res
+  induction res with
+  | nil => intro st st' _ _ _ _ k' rv hrv; simp [lookupKey] at hrv
+  | cons kv rest ih =>
+    obtain ⟨k, val⟩ := kv
+    intro st st' h hd hnd hfresh k' rv hrv
+    have hnd' : (keys rest).Nodup := by
+      simp only [keys, List.map_cons, List.nodup_cons] at hnd ⊢; exact hnd.2
+    have hk_rest : k ∉ keys rest := by
+      simp only [keys, List.map_cons, List.nodup_cons] at hnd ⊢; exact hnd.1
+    have hkB : k ∉ keys st.buffer := hfresh k (by simp [keys])
+    have hfr : ∀ k2 ∈ keys rest, k2 ∉ keys st.buffer := fun k2 h2 =>
+      hfresh k2 (by simp only [keys, List.map_cons, List.mem_cons] at h2 ⊢; exact .inr h2)
+    simp only [dictLoop] at h
+    cases hl : lookupKey k st.entries with
+    | none =>
+      rw [hl] at h
+      have hkE : k ∉ keys st.entries := (lookupKey_none_iff k st.entries).mp hl
+      have hd2 : Disj { st with buffer := st.buffer ++ [(k, val)], pos := st.pos + 1 } := by
+        intro k2 hk2
+        simp only [keys_append, List.mem_append] at hk2
+        rcases hk2 with hk2 | hk2
+        · exact hd k2 hk2
+        · simp [keys] at hk2; subst hk2; exact hkE
+      by_cases hkk : k = k'
+      · subst hkk
+        simp only [lookupKey, ↓reduceIte, Option.some.injEq] at hrv
+        subst hrv
+        rw [hl, dictLoop_look_notin env par k rest _ _ h hd2 hk_rest]
+        have : look k { st with buffer := st.buffer ++ [(k, val)], pos := st.pos + 1 } = some val := by
+          simp only [look, ← List.append_assoc]
+          rw [lookupKey_append]
+          have : lookupKey k (st.entries ++ st.buffer) = none := by
+            apply (lookupKey_none_iff _ _).mpr
+            simp only [keys_append, List.mem_append, not_or]; exact ⟨hkE, hkB⟩
+          simp [this, lookupKey]
+        rw [this]; exact Merged.rightOnly _
+      · rw [lookupKey_cons_ne _ _ hkk] at hrv
+        refine ih _ _ h hd2 hnd' ?_ k' rv hrv
+        intro k2 hk2
+        simp only [keys_append, List.mem_append, not_or]
+        refine ⟨hfr k2 hk2, ?_⟩
+        simp [keys]; rintro rfl; exact hk_rest hk2
+    | some lv =>
+      rw [hl] at h
+      simp only at h
+      have hb : (flush st).buffer = [] := rfl
+      have hkE1 : lookupKey k (flush st).entries = some lv := by
+        have := look_flush k st hd
+        rw [look_entries_of_notin_buffer k st hkB] at this
+        rw [← hl, ← this]; simp [look, hb]
+      have hfr1 : ∀ E p, ∀ k2 ∈ keys rest, k2 ∉ keys ({ entries := E, buffer := [], pos := p } : DState).buffer := by
+        intro E p k2 _; simp [keys]
+      -- what the three continuations have in common
+      have fin : ∀ (E : List (Key × Node)) (p : Nat) (out : Node),
+          dictLoop env par rest ⟨E, [], p⟩ = .ok st' →
+          lookupKey k E = some out →
+          (∀ k2, k2 ≠ k → lookupKey k2 E = lookupKey k2 (flush st).entries) →
+          Merged env par k (some lv) val (some out) →
+          Merged env par k' (lookupKey k' st.entries) rv (look k' st') := by
+        intro E p out hdl hout hoth hM
+        by_cases hkk : k = k'
+        · subst hkk
+          simp only [lookupKey, ↓reduceIte, Option.some.injEq] at hrv
+          subst hrv
+          rw [hl, dictLoop_look_notin env par k rest _ _ hdl (Disj_nil _ _) hk_rest]
+          simp only [look, List.append_nil, hout]; exact hM
+        · rw [lookupKey_cons_ne _ _ hkk] at hrv
+          have := ih _ _ hdl (Disj_nil _ _) hnd' (hfr1 E p) k' rv hrv
+          have hk'B : k' ∉ keys st.buffer := hfr k' (lookupKey_mem_keys hrv)
+          have e1 : lookupKey k' E = lookupKey k' st.entries := by
+            rw [hoth k' (fun e => hkk e.symm)]
+            have := look_flush k' st hd
+            rw [look_entries_of_notin_buffer k' st hk'B] at this
+            rw [← this]; simp [look, hb]
+          simpa only [e1] using this
+      have hset : ∀ v, lookupKey k (setKey k v (flush st).entries) = some v := by
+        intro v; simp [lookupKey_setKey, hkE1]
+      have hoth : ∀ v, ∀ k2, k2 ≠ k → lookupKey k2 (setKey k v (flush st).entries) = lookupKey k2 (flush st).entries := by
+        intro v k2 h2; simp [lookupKey_setKey, h2]
+      cases hs : shortCircuit env ⟨val, some par, some (.key k)⟩ with
+      | error e => rw [hs] at h; cases h
+      | ok sc =>
+        rw [hs] at h
+        cases sc with
+        | keepLeft => exact fin _ _ lv h hkE1 (fun _ _ => rfl) (Merged.keepLeft _ _ hs)
+        | takeRight => exact fin _ _ val h (hset _) (hoth _) (Merged.takeRight _ _ hs)
+        | goDeep =>
+          simp only at h
+          cases hm : mergeVal env lv ⟨val, some par, some (.key k)⟩ val with
+          | error e => rw [hm] at h; cases h
+          | ok m =>
+            rw [hm] at h
+            exact fin _ _ m h (hset _) (hoth _) (Merged.deep _ _ _ hs hm)
+
+/-- The key set of the mapping under construction only grows, by exactly the right-hand keys. -/
+theorem dictLoop_mem_keys (env : Env) (par : Node) (k' : Key) :
+    ∀ (res : List (Key × Node)) (st st' : DState), dictLoop env par res st = .ok st' →
+      (k' ∈ keys (st'.entries ++ st'.buffer) ↔ k' ∈ keys (st.entries ++ st.buffer) ∨ k' ∈ keys res) := by
+  intro res
+  induction res with
+  | nil => intro st st' h; simp only [dictLoop] at h; cases h; simp [keys]
+  | cons kv rest ih =>
+    obtain ⟨k, val⟩ := kv
+    intro st st' h
+    simp only [dictLoop] at h
+    cases hl : lookupKey k st.entries with
+    | none =>
+      rw [hl] at h
+      rw [ih _ _ h]
+      show (k' ∈ keys (st.entries ++ (st.buffer ++ [(k, val)])) ∨ k' ∈ keys rest) ↔ _
+      have e1 : keys [(k, val)] = [k] := rfl
+      have e2 : keys ((k, val) :: rest) = k :: keys rest := rfl
+      simp only [keys_append, List.mem_append, e1, e2, List.mem_cons]
+      grind
+    | some lv =>
+      rw [hl] at h
+      simp only at h
+      have hkE : k ∈ keys st.entries := lookupKey_mem_keys hl
+      have fin : ∀ E p, keys E = keys (flush st).entries → dictLoop env par rest ⟨E, [], p⟩ = .ok st' →
+          (k' ∈ keys (st'.entries ++ st'.buffer) ↔ k' ∈ keys (st.entries ++ st.buffer) ∨ k' ∈ keys ((k, val) :: rest)) := by
+        intro E p hE hdl
+        rw [ih _ _ hdl]
+        simp only [List.append_nil, hE, mem_keys_flush, keys_append, List.mem_append]
+        simp only [keys, List.map_cons, List.mem_cons]
+        constructor
+        · rintro (h1 | h1)
+          · exact .inl h1
+          · exact .inr (.inr h1)
+        · rintro (h1 | h1 | h1)
+          · exact .inl h1
+          · subst h1; exact .inl (.inl hkE)
+          · exact .inr h1
+      cases hs : shortCircuit env ⟨val, some par, some (.key k)⟩ with
+      | error e => rw [hs] at h; cases h
+      | ok sc =>
+        rw [hs] at h
+        cases sc with
+        | keepLeft => exact fin _ _ rfl h
+        | takeRight => exact fin _ _ (keys_setKey _ _ _) h
+        | goDeep =>
+          simp only at h
+          cases hm : mergeVal env lv ⟨val, some par, some (.key k)⟩ val with
+          | error e => rw [hm] at h; cases h
+          | ok m => rw [hm] at h; exact fin _ _ (keys_setKey _ _ _) h
+
+/-! ## Array-of-Hashes DEEP merges by identity key -/
+
+theorem find?_decomp (p : Node → Bool) (new : Node) : ∀ (xs : List Node) (lh : Node), xs.find? p = some lh →
+    ∃ pre post, xs = pre ++ lh :: post ∧ (∀ x ∈ pre, p x = false) ∧ p lh = true ∧
+      replaceFirst p new xs = pre ++ new :: post := by
+  intro xs
+  induction xs with
+  | nil => intro lh h; cases h
+  | cons x rest ih =>
+    intro lh h
+    simp only [List.find?_cons] at h
+    cases hp : p x with
+    | true =>
+      rw [hp] at h; cases h
+      exact ⟨[], rest, rfl, (by intro y hy; cases hy), hp, (by simp [replaceFirst, hp])⟩
+    | false =>
+      rw [hp] at h
+      obtain ⟨pre, post, e, hpre, hlh, hrep⟩ := ih lh h
+      refine ⟨x :: pre, post, by rw [e]; rfl, ?_, hlh, ?_⟩
+      · intro y hy
+        rcases List.mem_cons.mp hy with rfl | hy
+        · exact hp
+        · exact hpre y hy
+      · simp [replaceFirst, hp, hrep]
+
+theorem find?_of_decomp (p : Node → Bool) (pre : List Node) (lh : Node) (post : List Node)
+    (hpre : ∀ x ∈ pre, p x = false) (hlh : p lh = true) : (pre ++ lh :: post).find? p = some lh := by
+  induction pre with
+  | nil => simp [hlh]
+  | cons x rest ih =>
+    simp only [List.cons_append, List.find?_cons, hpre x (List.mem_cons_self)]
+    exact ih (fun y hy => hpre y (List.mem_cons_of_mem _ hy))
+
+/-- `aohDeepStep` on a record is exactly `Spec.AohStep`. -/
+theorem aohDeepStep_iff (env : Env) (idKey : Key) (litems : List Node) (a : Option Str)
+    (es : List (Key × Node)) (out : List Node) :
+    aohDeepStep env idKey litems (.map a es) = .ok out ↔ AohStep env idKey litems a es out := by
+  simp only [aohDeepStep, recordGet]
+  constructor
+  · intro h
+    cases hid : lookupKey idKey es with
+    | none => rw [hid] at h; cases h
+    | some idv =>
+      rw [hid] at h
+      simp only at h
+      cases hf : litems.find? (recordMatches env idKey (typedNode env idv)) with
+      | none =>
+        rw [hf] at h; cases h
+        refine AohStep.append idv hid ?_
+        intro x hx
+        have := List.find?_eq_none.mp hf x hx
+        simpa using this
+      | some lh =>
+        rw [hf] at h
+        simp only at h
+        have hmd : dictWrap lh (dictLoop env (.map a es) es) = mergeDicts env lh (.map a es) es := rfl
+        rw [hmd] at h
+        cases hm : mergeDicts env lh (.map a es) es with
+        | error e => rw [hm] at h; cases h
+        | ok m =>
+          rw [hm] at h
+          obtain ⟨pre, post, e, hpre, hlh, hrep⟩ := find?_decomp _ m litems lh hf
+          simp only [hrep] at h; cases h
+          exact AohStep.merge idv pre lh post m hid e hpre hlh hm
+  · intro h
+    cases h with
+    | append idv hid hall =>
+      rw [hid]
+      simp only
+      have : litems.find? (recordMatches env idKey (typedNode env idv)) = none := by
+        apply List.find?_eq_none.mpr
+        intro x hx; simp [hall x hx]
+      rw [this]
+    | merge idv pre lh post m hid e hpre hlh hm =>
+      rw [hid]
+      simp only
+      have hf := find?_of_decomp _ pre lh post hpre hlh
+      rw [← e] at hf
+      rw [hf]
+      simp only
+      have hmd : dictWrap lh (dictLoop env (.map a es) es) = mergeDicts env lh (.map a es) es := rfl
+      rw [hmd, hm]
+      obtain ⟨pre', post', e', hpre', hlh', hrep'⟩ := find?_decomp _ m litems lh hf
+      simp only [hrep']
+      -- the decomposition at the first match is unique
+      have : pre' = pre ∧ post' = post := by
+        rw [e] at e'
+        clear hf hrep' hm e
+        induction pre generalizing pre' with
+        | nil =>
+          cases pre' with
+          | nil => simp at e'; exact ⟨rfl, e'.symm⟩
+          | cons y ys =>
+            simp only [List.nil_append, List.cons_append, List.cons.injEq] at e'
+            have := hpre' y (List.mem_cons_self)
+            rw [← e'.1, hlh] at this; cases this
+        | cons x xs ih =>
+          cases pre' with
+          | nil =>
+            simp only [List.nil_append, List.cons_append, List.cons.injEq] at e'
+            have := hpre x (List.mem_cons_self)
+            rw [e'.1, hlh'] at this; cases this
+          | cons y ys =>
+            simp only [List.cons_append, List.cons.injEq] at e'
+            obtain ⟨h1, h2⟩ := ih (fun z hz => hpre z (List.mem_cons_of_mem _ hz)) ys e'.2
+              (fun z hz => hpre' z (List.mem_cons_of_mem _ hz))
+            exact ⟨by rw [e'.1, h1], h2⟩
+      rw [this.1, this.2]
+
+theorem aohDeepStep_nonmap (env : Env) (idKey : Key) (litems : List Node) (ele : Node)
+    (h : isMap ele = false) : aohDeepStep env idKey litems ele = .error .merge := by
+  cases ele <;> simp_all [aohDeepStep, isMap]
+
+/-- `aohDeepLoop` is exactly `Spec.AohDeep`. -/
+theorem aohDeepLoop_iff (env : Env) (idKey : Key) : ∀ (eles litems out : List Node),
+    aohDeepLoop env idKey eles litems = .ok out ↔ AohDeep env idKey litems eles out := by
+  intro eles
+  induction eles with
+  | nil =>
+    intro litems out
+    simp only [aohDeepLoop]
+    constructor
+    · intro h; cases h; exact AohDeep.nil _
+    · intro h; cases h; rfl
+  | cons ele rest ih =>
+    intro litems out
+    simp only [aohDeepLoop]
+    constructor
+    · intro h
+      cases hs : aohDeepStep env idKey litems ele with
+      | error e => rw [hs] at h; cases h
+      | ok l1 =>
+        rw [hs] at h
+        simp only at h
+        cases ele with
+        | map a es => exact AohDeep.cons _ l1 _ a es rest ((aohDeepStep_iff ..).mp hs) ((ih _ _).mp h)
+        | scalar a v => simp [aohDeepStep] at hs
+        | seq a v => simp [aohDeepStep] at hs
+        | set a v => simp [aohDeepStep] at hs
+    · intro h
+      cases h with
+      | cons _ l1 _ a es _ hstep hrest =>
+        rw [(aohDeepStep_iff ..).mpr hstep]
+        exact (ih _ _).mpr hrest
+
+
+theorem getElem?_replace_ne {α : Type} (pre post : List α) (a b : α) (i : Nat) (h : i ≠ pre.length) :
+    (pre ++ b :: post)[i]? = (pre ++ a :: post)[i]? := by
+  simp only [List.getElem?_append]
+  split
+  · rfl
+  · have : i - pre.length = (i - pre.length - 1) + 1 := by omega
+    rw [this]; simp
+
+theorem AohStep_length {env : Env} {idKey : Key} {litems : List Node} {a : Option Str}
+    {es : List (Key × Node)} {out : List Node} (h : AohStep env idKey litems a es out) :
+    litems.length ≤ out.length ∧ out.length ≤ litems.length + 1 := by
+  cases h with
+  | append idv _ _ => simp
+  | merge idv pre lh post m _ e _ _ _ => subst e; simp
+
+/-- A left-hand element that does not carry the record's identity stays where it is. -/
+theorem AohStep_keeps {env : Env} {idKey : Key} {litems : List Node} {a : Option Str}
+    {es : List (Key × Node)} {out : List Node} (h : AohStep env idKey litems a es out)
+    (i : Nat) (x : Node) (hx : litems[i]? = some x)
+    (hno : ∀ idv, lookupKey idKey es = some idv → recordMatches env idKey (typedNode env idv) x = false) :
+    out[i]? = some x := by
+  cases h with
+  | append idv _ _ =>
+    have hi : i < litems.length := by
+      cases Nat.lt_or_ge i litems.length with
+      | inl h => exact h
+      | inr h => rw [List.getElem?_eq_none h] at hx; cases hx
+    rw [List.getElem?_append_left hi]; exact hx
+  | merge idv pre lh post m hid e _ hlh _ =>
+    subst e
+    have hne : i ≠ pre.length := by
+      intro hi
+      subst hi
+      simp at hx
+      subst hx
+      rw [hno idv hid] at hlh; cases hlh
+    rw [getElem?_replace_ne pre post lh m i hne]; exact hx
+
+theorem AohDeep_length {env : Env} {idKey : Key} {litems ritems out : List Node}
+    (h : AohDeep env idKey litems ritems out) :
+    litems.length ≤ out.length ∧ out.length ≤ litems.length + ritems.length := by
+  induction h with
+  | nil l => simp
+  | cons l l1 out a es rest hstep _ ih =>
+    have := AohStep_length hstep
+    simp only [List.length_cons]; omega
+
+theorem AohDeep_keeps {env : Env} {idKey : Key} {litems ritems out : List Node}
+    (h : AohDeep env idKey litems ritems out) (i : Nat) (x : Node) (hx : litems[i]? = some x)
+    (hno : ∀ a es idv, Node.map a es ∈ ritems → lookupKey idKey es = some idv →
+      recordMatches env idKey (typedNode env idv) x = false) :
+    out[i]? = some x := by
+  induction h with
+  | nil l => exact hx
+  | cons l l1 out a es rest hstep _ ih =>
+    apply ih (AohStep_keeps hstep i x hx (fun idv hid => hno a es idv (List.mem_cons_self) hid))
+    intro a' es' idv hmem hid
+    exact hno a' es' idv (List.mem_cons_of_mem _ hmem) hid
+
+/-- A successful `_merge_dicts` into a mapping is the loop's final state: entries, then what is still
+buffered. -/
+theorem mergeDicts_shape (env : Env) (la : Option Str) (l : List (Key × Node)) (par : Node)
+    (r : List (Key × Node)) (m : Node) (h : mergeDicts env (.map la l) par r = .ok m) :
+    ∃ st, dictLoop env par r ⟨l, [], 0⟩ = .ok st ∧ m = .map la (st.entries ++ st.buffer) := by
+  unfold mergeDicts dictWrap at h
+  simp only at h
+  cases hl : dictLoop env par r ⟨l, [], 0⟩ with
+  | error e => rw [hl] at h; cases h
+  | ok st => rw [hl] at h; cases h; exact ⟨st, rfl, rfl⟩
+
+/-- A list is duplicate-free when its two halves under a predicate are. -/
+theorem nodup_of_filter {α : Type} [DecidableEq α] (p : α → Bool) : ∀ (xs : List α),
+    (xs.filter p).Nodup → (xs.filter (fun x => !p x)).Nodup → xs.Nodup := by
+  intro xs
+  induction xs with
+  | nil => intro _ _; exact List.nodup_nil
+  | cons x rest ih =>
+    intro h1 h2
+    simp only [List.filter_cons] at h1 h2
+    cases hp : p x with
+    | true =>
+      simp only [hp, ↓reduceIte, Bool.not_true, Bool.false_eq_true, List.nodup_cons] at h1 h2
+      refine List.nodup_cons.mpr ⟨?_, ih h1.2 h2⟩
+      intro hx; exact h1.1 (List.mem_filter.mpr ⟨hx, hp⟩)
+    | false =>
+      simp only [hp, Bool.false_eq_true, ↓reduceIte, Bool.not_false, List.nodup_cons] at h1 h2
+      refine List.nodup_cons.mpr ⟨?_, ih h1 h2.2⟩
+      intro hx; exact h2.1 (List.mem_filter.mpr ⟨hx, by simp [hp]⟩)
+
+/-! ## Nothing is lost in an AoH DEEP merge (key level) -/
+
+theorem KeysGrow_trans {x y z : Node} (h1 : KeysGrow x y) (h2 : KeysGrow y z) : KeysGrow x z := by
+  cases h1 with
+  | same => exact h2
+  | grown a es es' h =>
+    cases h2 with
+    | same => exact KeysGrow.grown a es es' h
+    | grown _ _ es'' h' => exact KeysGrow.grown a es es'' (fun k hk => h' k (h k hk))
+
+/-- `y` is a Hash with at least the keys `K`. -/
+def HasKeys (K : List Key) (y : Node) : Prop := ∃ a es, y = .map a es ∧ ∀ k ∈ K, k ∈ keys es
+
+theorem HasKeys.grow {K : List Key} {y z : Node} (h : HasKeys K y) (hg : KeysGrow y z) : HasKeys K z := by
+  cases hg with
+  | same => exact h
+  | grown a es es' hsub =>
+    obtain ⟨a0, es0, e, hk⟩ := h
+    cases e
+    exact ⟨a, es', rfl, fun k hk' => hsub k (hk k hk')⟩
+
+theorem getElem?_replace_eq {α : Type} (pre post : List α) (b : α) :
+    (pre ++ b :: post)[pre.length]? = some b := by
+  simp
+
+theorem mergeDicts_KeysGrow (env : Env) (lh par : Node) (es : List (Key × Node)) (m : Node)
+    (h : mergeDicts env lh par es = .ok m) : KeysGrow lh m ∧ HasKeys (keys es) m := by
+  cases lh with
+  | map la les =>
+    obtain ⟨st, hl, rfl⟩ := mergeDicts_shape env la les par es m h
+    have hk := fun k => dictLoop_mem_keys env par k es _ _ hl
+    refine ⟨KeysGrow.grown la les _ (fun k hkl => (hk k).mpr (.inl (by simpa [keys] using hkl))),
+      la, _, rfl, fun k hkr => (hk k).mpr (.inr hkr)⟩
+  | scalar _ _ => simp [mergeDicts, dictWrap] at h
+  | seq _ _ => simp [mergeDicts, dictWrap] at h
+  | set _ _ => simp [mergeDicts, dictWrap] at h
+
+theorem AohStep_grows {env : Env} {idKey : Key} {litems : List Node} {a : Option Str}
+    {es : List (Key × Node)} {out : List Node} (h : AohStep env idKey litems a es out) :
+    (∀ (i : Nat) (x : Node), litems[i]? = some x → ∃ y, out[i]? = some y ∧ KeysGrow x y) ∧
+    ∃ (j : Nat) (y : Node), out[j]? = some y ∧ HasKeys (keys es) y := by
+  cases h with
+  | append idv _ _ =>
+    refine ⟨?_, litems.length, .map a es, by simp, a, es, rfl, fun _ h => h⟩
+    intro i x hx
+    have hi : i < litems.length := by
+      cases Nat.lt_or_ge i litems.length with
+      | inl h => exact h
+      | inr h => rw [List.getElem?_eq_none h] at hx; cases hx
+    exact ⟨x, by rw [List.getElem?_append_left hi]; exact hx, KeysGrow.same x⟩
+  | merge idv pre lh post m hid e _ hlh hm =>
+    subst e
+    have hg := mergeDicts_KeysGrow env lh _ es m hm
+    refine ⟨?_, pre.length, m, getElem?_replace_eq pre post m, hg.2⟩
+    intro i x hx
+    by_cases hi : i = pre.length
+    · subst hi
+      rw [getElem?_replace_eq] at hx; cases hx
+      exact ⟨m, getElem?_replace_eq pre post m, hg.1⟩
+    · exact ⟨x, by rw [getElem?_replace_ne pre post lh m i hi]; exact hx, KeysGrow.same x⟩
+
+theorem AohDeep_grows {env : Env} {idKey : Key} {litems ritems out : List Node}
+    (h : AohDeep env idKey litems ritems out) :
+    (∀ (i : Nat) (x : Node), litems[i]? = some x → ∃ y, out[i]? = some y ∧ KeysGrow x y) ∧
+    (∀ a es, Node.map a es ∈ ritems → ∃ y ∈ out, HasKeys (keys es) y) := by
+  induction h with
+  | nil l => exact ⟨fun i x hx => ⟨x, hx, KeysGrow.same x⟩, by intro a es h; cases h⟩
+  | cons l l1 out a es rest hstep _ ih =>
+    obtain ⟨hs1, j, y, hj, hy⟩ := AohStep_grows hstep
+    refine ⟨?_, ?_⟩
+    · intro i x hx
+      obtain ⟨y1, h1, g1⟩ := hs1 i x hx
+      obtain ⟨y2, h2, g2⟩ := ih.1 i y1 h1
+      exact ⟨y2, h2, KeysGrow_trans g1 g2⟩
+    · intro a' es' hmem
+      rcases List.mem_cons.mp hmem with e | hmem
+      · cases e
+        obtain ⟨y2, h2, g2⟩ := ih.1 j y hj
+        exact ⟨y2, List.mem_of_getElem? h2, hy.grow g2⟩
+      · exact ih.2 a' es' hmem
 
 end Ypv.Merge
